@@ -29,11 +29,17 @@ package tagstree
 //@   site call os.Stat #1:
 //@     assert [probed-only-for-a-validated-key] uf("safeName", bool, tagKey)
 //@ end
+// (C18) the metadata table handed to the decoders is a whole number of 16-byte
+// entries WHATEVER size the (unchecksummed) header claims: the decoders below
+// take that shape as their precondition, this is where it is established.
 //@ func (*AllTagTreeReaders).initTagsTreeReader
-//@   props C19
+//@   props C19 C18
 //@   requires attr != nil
 //@   site call os.OpenFile #1:
 //@     assert [opened-only-for-a-validated-key] uf("safeName", bool, tagKey) && (arg1 & (os.O_WRONLY | os.O_RDWR | os.O_CREATE | os.O_TRUNC)) == 0
+//@   loop 1:
+//@     invariant [whole-entries-so-far] len(rbuf) % 16 == 0 && len(newArr) == 16
+//@   ensures [the-metadata-table-is-a-whole-number-of-16-byte-entries] implies(result1 == nil, result0 != nil && len(result0.metadataBuf) % 16 == 0)
 //@ end
 
 // C18 (arbitrary bytes fed to an on-disk decoder never crash the server): the
